@@ -27,6 +27,34 @@ def _as_bytes(k):
     return k.encode("latin-1") if isinstance(k, (str, sx.SymStr)) else k
 
 
+def f_short(n, entry):
+    """the same frame written in two pieces (symbolic split point): wire and RETURN VALUE must not depend on it"""
+    quiet_logging()
+    payload = sx.sym_bytes("p", n)
+    key = sx.sym_bytes("k", 4)
+    exp = ref_encode(1, 2, payload, key)
+    F = len(exp)
+    first = sx.choice("first", F - 1) + 1
+    sock = FakeSock(accept=[first])
+    ws = new_ws(sock, get_mask_key=KeySource([key]))
+    from websocket._abnf import ABNF
+    try:
+        if entry == "send_binary":
+            ret = ws.send_binary(payload)
+        elif entry == "send":
+            ret = ws.send(payload, 2)
+        else:
+            ret = ws.send_frame(ABNF.create_frame(payload, 2, 1))
+    except (sx.Control, sx.ConcreteFailure, sx.ReplayMismatch):
+        raise
+    except Exception as e:
+        sx.require(False, "send-side call raised %s under a short write" % type(e).__name__, entry=entry)
+        return
+    sx.require(sock.wire() == exp, "frame on the wire under a short write", entry=entry)
+    sx.require(ret == F, "return value is the number of frame bytes written, also when the transport accepts them in pieces", entry=entry)
+    cover("short-ret")
+
+
 def f_full(entry, n, keysrc="default", kind="bytes", trace=False, text=None, sparse=0):
     """one send-side call with an n-byte symbolic payload; compare the wire with the reference"""
     import websocket
@@ -255,6 +283,9 @@ def obligations(tier):
                                     for kk in ("bytes", "str") for dk in ("bytes", "str")],
                    bounds="n in 0..17,125,126,127,200; key and data as bytes and as ASCII str", must_cover=["mask-checked"],
                    kernel=["ABNF.mask", "_mask"]),
+        Obligation("F-short", f_short, [dict(n=n, entry=e) for n in (0, 1, 5, 126) for e in ("send", "send_binary", "send_frame")],
+                   bounds="payload 0,1,5,126 bytes written in two pieces, every split point (symbolic); full short-write coverage is C12",
+                   must_cover=["short-ret"], kernel=["WebSocket.send_frame", "_socket.send"]),
         Obligation("F-big", f_full, big, bounds="payload lengths %s; %s" % ([b["n"] for b in big], "every byte symbolic" if thorough else "symbolic at the first/last 16 positions and 4 middle ones, zero elsewhere"),
                    must_cover=["frame-checked"], budget_s=1200, solver_timeout_ms=120000, chunk_s=600,
                    kernel=["ABNF.format", "_mask"]),
